@@ -14,7 +14,7 @@ import (
 
 // Run generates the C13 cases.
 func Run(r *hk.Run) {
-	r.Res.Rule = "a case = one random storage tree (depth ≤ 3; inner namespace, proxycache[max] over memcache[max] or a store, overlay, shard and replica over 2, 3 or 4 sub-stores, cond; leaves memory, some localdisk/diskpacked) whose EVERY leaf sits behind a fault wrapper with its own call schedule (call i of that leaf: none / fails before any effect / takes effect but answers an error), and a history of single-key receive/fetch/stat/remove and enumerate; thorough: for a history, one case per (leaf, call index the healthy run makes, failure kind) = single faults exhaustively, plus random bursts; every op under a watchdog. Oracle: three-valued reference map (a failed receive/remove leaves its key undetermined until the next successful read resolves it); an error answer needs an injected failure, every other answer must be exact for some resolution, and once all schedules are exhausted the store must answer exactly like the reference map. Below the Storage interface (sweep.go, child processes): for the files store over a recording VFS and for diskpacked over a recording index KeyValue, every lower-layer call (counted from the call log of a healthy run) of receive-new / re-receive of an acknowledged blob / remove / remove-absent / a RemoveBlobs batch of three acknowledged blobs / a batch mixing present and absent blobs / fetch / stat / a StatBlobs batch / enumerate fails once in each of its modes (no effect; effect but error answer), on a store holding acknowledged blobs; after each: answer is an error or exact, every acknowledged unremoved blob is fetched back intact and stat'ed, the op's own blob is absent or intact, enumerate lists exactly what can be fetched, a healthy retry succeeds and leaves the exact state, diskpacked re-indexes; each blob of a failed batch is fully removed or fully present with its bytes, the acknowledged bystander is untouched. The same sweep runs on storage trees (memory/localdisk/diskpacked leaf, 3-way shard, overlay, proxycache with and without eviction, namespace, replica, cond, nested) whose leaves fail at the Storage interface. Encrypt programs (encrypt.go): one encrypt storage over a wrapped META and a wrapped BLOBS memory store, 215 receives (meta compaction starts in the background when the heap of small meta blobs exceeds 100 entries: twice per program; the harness waits after every operation until the goroutine is gone), failures at the k-th call / k-th ReceiveBlob / k-th RemoveBlobs of either store - each call of the background compaction (packed upload, removal of the small meta blobs) in both modes, and random bursts over all calls -, live reads of acknowledged blobs, then, failures stopped, a FRESH encrypt storage with an empty meta index over the same two stores must fetch every acknowledged blob bit-identically, enumerate it with its size, and accept a new blob. Generator restrictions that keep per-leaf call numbers deterministic (the model has no scheduler): trees with an overlay below a merging node (shard/replica/cond/overlay) enumerate only in the quiet phase and with an unreachable limit; no replica/cond below a proxycache origin; trees with replica/cond have memory leaves only; after every op the harness waits until the goroutines the op started have ended. distinct_nontrivial = distinct (tree shape, schedule pattern) pairs in which at least one failure was injected and the quiet continuation was reached"
+	r.Res.Rule = "a case = one random storage tree (depth ≤ 3; inner namespace, proxycache[max] over memcache[max] or a store, overlay, shard and replica over 2, 3 or 4 sub-stores, cond; leaves memory, some localdisk/diskpacked) whose EVERY leaf sits behind a fault wrapper with its own call schedule (call i of that leaf: none / fails before any effect / takes effect but answers an error), and a history of single-key receive/fetch/stat/remove and enumerate; thorough: for a history, one case per (leaf, call index the healthy run makes, failure kind) = single faults exhaustively, plus random bursts; every op under a watchdog. Oracle: three-valued reference map (a failed receive/remove leaves its key undetermined until the next successful read resolves it); an error answer needs an injected failure, every other answer must be exact for some resolution, and once all schedules are exhausted the store must answer exactly like the reference map. Below the Storage interface (sweep.go, child processes): for the files store over a recording VFS and for diskpacked over a recording index KeyValue, every lower-layer call (counted from the call log of a healthy run) of receive-new / re-receive of an acknowledged blob / remove / remove-absent / a RemoveBlobs batch of three acknowledged blobs / a batch mixing present and absent blobs / fetch / stat / a StatBlobs batch / enumerate fails once in each of its modes (no effect; effect but error answer), on a store holding acknowledged blobs; after each: answer is an error or exact, every acknowledged unremoved blob is fetched back intact and stat'ed, the op's own blob is absent or intact, enumerate lists exactly what can be fetched, a healthy retry succeeds and leaves the exact state, diskpacked re-indexes; each blob of a failed batch is fully removed or fully present with its bytes, the acknowledged bystander is untouched. Every world also holds a blob that was received and removed again (an overlay keeps a tombstone for it over a lower layer that still holds it): receive-after-remove, fetch/stat of the removed ref and a second remove are swept too. The same sweep runs with the store's OWN sorted.KeyValue as the failing layer (overlay deleted set, namespace inventory, encrypt and blobpacked metaIndex: every Get/Set/Delete/CommitBatch/Find), and on storage trees (memory/localdisk/diskpacked leaf, 3-way shard, overlay, proxycache with and without eviction, namespace, replica, cond, nested) whose leaves fail at the Storage interface. Encrypt programs (encrypt.go): one encrypt storage over a wrapped META and a wrapped BLOBS memory store, 215 receives (meta compaction starts in the background when the heap of small meta blobs exceeds 100 entries: twice per program; the harness waits after every operation until the goroutine is gone), failures at the k-th call / k-th ReceiveBlob / k-th RemoveBlobs of either store - each call of the background compaction (packed upload, removal of the small meta blobs) in both modes, and random bursts over all calls -, live reads of acknowledged blobs, then, failures stopped, a FRESH encrypt storage with an empty meta index over the same two stores must fetch every acknowledged blob bit-identically, enumerate it with its size, and accept a new blob. Generator restrictions that keep per-leaf call numbers deterministic (the model has no scheduler): trees with an overlay below a merging node (shard/replica/cond/overlay) enumerate only in the quiet phase and with an unreachable limit; no replica/cond below a proxycache origin; trees with replica/cond have memory leaves only; after every op the harness waits until the goroutines the op started have ended. distinct_nontrivial = distinct (tree shape, schedule pattern) pairs in which at least one failure was injected and the quiet continuation was reached"
 	genCases(r)
 	mechanisms(r)
 	sweeps(r)
@@ -25,7 +25,9 @@ func Run(r *hk.Run) {
 // sweeps: exhaustive single faults over every lower-layer call (VFS call of the files store, index
 // KeyValue call of diskpacked) of receive-new / re-receive / remove / remove-absent / fetch / stat /
 // enumerate, and of multi-blob RemoveBlobs / StatBlobs batches (sweep.go), in child processes; and the same sweep one
-// level up: storage trees whose leaves fail at the Storage interface, all leaves sharing one call numbering.
+// level up: storage trees whose leaves fail at the Storage interface, all leaves sharing one call numbering; and on
+// the stores that own a sorted.KeyValue (overlay deleted set, namespace inventory, encrypt and blobpacked
+// metaIndex) with that KeyValue as the failing lower layer.
 func sweeps(r *hk.Run) {
 	var lines, setApplied []string
 	sizes := []int{40}
@@ -54,11 +56,32 @@ func sweeps(r *hk.Run) {
 			lines = append(lines, fmt.Sprintf("probe treesweep %d %s", sz, t))
 		}
 	}
+	for _, k := range []string{"overlay", "namespace", "encrypt", "blobpacked"} {
+		for _, sz := range sizes {
+			if sz == 100000 {
+				continue
+			}
+			lines = append(lines, fmt.Sprintf("probe kvsweep %s %d", k, sz))
+		}
+	}
+	wedged := 0
 	for _, l := range lines {
-		o, st := childProbe(r, l, 300*time.Second)
+		if wedged >= 3 {
+			r.Note("sweeps skipped after 3 wedged children: " + l)
+			r.Hit("sweep:skipped-after-hangs")
+			continue
+		}
+		// a sweep takes a few seconds; it stops by itself after two hangs (each costs a watchdog period)
+		o, st := childProbe(r, l, 120*time.Second)
+		if st == "hang" {
+			wedged++
+		}
 		which := "files"
 		if strings.Contains(l, "dpsweep") {
 			which = "diskpacked"
+		}
+		if f := strings.Fields(l); strings.Contains(l, "kvsweep") && len(f) > 2 {
+			which = "kv-" + f[2]
 		}
 		if strings.Contains(l, "treesweep") {
 			which = "tree-strict"
@@ -93,6 +116,9 @@ func sweeps(r *hk.Run) {
 						r.Res.Histogram["sweep:"+which+":max-lower-layer-calls:"+sc] = n
 					}
 				}
+			case "not-reached":
+				n, _ := strconv.Atoi(v)
+				r.Res.Histogram["sweep:"+which+":fault-not-reached"] += n
 			case "faulted":
 				for _, nm := range strings.Split(v, ",") {
 					r.Hit("sweep:" + which + ":faulted-call:" + nm)
